@@ -1,9 +1,9 @@
 """property id -> rules, explanation of what is / is not decided"""
-from rules import r_hist, r_lock, r_errdrop, r_coord, r_keyid, r_opcode, r_doaction, r_cancel, r_idle, r_loop, r_traverse, r_repeat, r_chv2, r_wait, r_macro, r_seq, r_override, r_reload, r_pipeline, r_dynmacro, r_vkey, r_layers, r_panic, r_prodcons, r_span, r_rec, r_evict, r_coordspace, r_loopvar, r_depth
+from rules import r_hist, r_lock, r_errdrop, r_coord, r_keyid, r_opcode, r_doaction, r_cancel, r_idle, r_loop, r_traverse, r_repeat, r_chv2, r_wait, r_macro, r_seq, r_override, r_reload, r_pipeline, r_dynmacro, r_vkey, r_layers, r_panic, r_prodcons, r_span, r_rec, r_evict, r_coordspace, r_loopvar, r_depth, r_countdown, r_accessor, r_scratch
 
 PROPS = {
     "C01": {
-        "rules": [r_coord.run, r_doaction.rule_state_push, r_cancel.run, r_chv2.rule_rel, r_evict.run],
+        "rules": [r_coord.run, r_doaction.rule_state_push, r_cancel.run, r_cancel.rule_owed, r_chv2.rule_rel, r_evict.run, r_countdown.run],
         "explanation": "Decides structural clauses of 'no stuck output': (R-COORD) every State variant created at a "
                        "coordinate is removable by Release at that coordinate and the three coordinate predicates agree; "
                        "(R-STATE-PUSH) arms of do_action that create coordinate-keyed state do so on every path and the custom "
@@ -74,9 +74,12 @@ PROPS = {
                        "keys — value-level",
     },
     "C06": {
-        "rules": [r_doaction.rule_osh_arms, r_doaction.rule_osh_repress, r_evict.run_c06],
+        "rules": [r_doaction.rule_osh_arms, r_doaction.rule_osh_repress, r_evict.run_c06, r_countdown.run],
         "explanation": "Decides: every arm of do_action (21 Action variants) notifies the one-shot state machine of the press, "
-                       "delegates to an inner action, or defers the action (R-OSH-ARMS); macro Press/Tap events notify too.",
+                       "delegates to an inner action, or defers the action (R-OSH-ARMS); macro Press/Tap events notify too. (R-COUNTDOWN) the "
+                       "one-shot timeout, like every count-down timer on the tick path, expires on its level: it is never decremented "
+                       "only under a test of its own value and compared again afterwards (edge-triggered expiry leaves a timer that is "
+                       "already zero armed for ever).",
         "not_decided": "which key is 'the next one', timeout arithmetic, stacking semantics — run-time values",
     },
     "C11": {
@@ -94,7 +97,7 @@ PROPS = {
                        "output characters are trusted to the parser's character table",
     },
     "C07": {
-        "rules": [r_idle.run, r_idle.run_keytiming, r_loop.run, r_idle.run_states],
+        "rules": [r_idle.run, r_idle.run_keytiming, r_loop.run, r_idle.run_states, r_scratch.run],
         "explanation": "Decides: (R-IDLE) every (type, field) of kanata's run-time state that has a self-dependent scalar update "
                        "(counter/timer) or loses elements in a function reachable from Kanata::tick_ms is read as a whole by "
                        "is_idle / can_block_update_idle_waiting (transitively), is covered by a container those read, or is listed "
@@ -105,7 +108,7 @@ PROPS = {
                        "table's semantic reasons are reviewed, not machine-checked",
     },
     "C08": {
-        "rules": [r_macro.run_all, r_cancel.run, r_evict.run_c08],
+        "rules": [r_macro.run_all, r_cancel.run, r_cancel.rule_owed, r_evict.run_c08, r_scratch.run],
         "explanation": "Decides: (R-MACRO-BAL) the macro compiler parse_macro_item_impl emits, on every path to an Ok return, a "
                        "Release event from the same source for every Press event it emits (single keys, output chords, held "
                        "modifier groups); (R-CANCEL) each of the sites that clear the running macros also removes the macro-held "
@@ -165,7 +168,7 @@ PROPS = {
                        "(e.g. simultaneous vs sequential parameter substitution) — relations between two programs",
     },
     "C14": {
-        "rules": [r_traverse.run_repeat, r_repeat.run_outputs, r_repeat.run, r_repeat.run_collect],
+        "rules": [r_traverse.run_repeat, r_repeat.run_outputs, r_repeat.run, r_repeat.run_collect, r_scratch.run],
         "explanation": "Decides: the repeat-table builder passes every nested action of every Action variant (derived from the "
                        "type) to its recursion and records every key-code-bearing variant (R-TRAVERSE, R-RPT-TABLE); in "
                        "handle_repeat_actual every write of a repeat is reachable only through a 'key currently held' test, at "
@@ -174,8 +177,9 @@ PROPS = {
         "not_decided": "which of several output keys is preferred; layer search order — run-time values",
     },
     "C10": {
-        "rules": [r_opcode.run_all, r_doaction.rule_fork_keys, r_hist.run],
-        "explanation": "Decides the encoding layer of switch: (a) the opcode tag constants partition u16 (evaluated constants); "
+        "rules": [r_opcode.run_all, r_doaction.rule_fork_keys, r_hist.run, r_accessor.run],
+        "explanation": "Decides the encoding layer of switch and what it is evaluated over: (R-ACCESSOR) State::coord / State::keycode, "
+                       "which feed the `input` and key conditions, return Some for every State variant that has the field; (a) the opcode tag constants partition u16 (evaluated constants); "
                        "(b) every OpCode constructor's tag and bit-fields are decoded by opcode_type into the OpCodeType variant its "
                        "name states (value-set data-flow over the decoder; shift amounts and field masks agree; BooleanOperator "
                        "to_u16/from are inverse); (c) 2-word opcodes are emitted, decoded, skipped by the evaluator and pushed by the "
